@@ -10,3 +10,7 @@ mod unique_vars;
 pub use basic_block::BasicBlock;
 pub use cfg::{Cfg, DefinitionType, Index};
 pub use lifting::IntoCfg;
+
+/// Verification hook H2 (see `cfg.rs`): pass budgets for value and degree propagation.
+#[cfg(feature = "verif")]
+pub use cfg::verif;
